@@ -578,3 +578,20 @@ def shadowing_programs():
                                                                        ('set', [(A, ('+', S(A), 1))]), S(A)])])),
                         ('list', ('call', S(B), v2), S(A))))
     return out
+
+
+def discarded_value_programs():
+    """a value that is discarded is still computed: an unbound name in a non-final position of do / a body raises,
+    a bound one does not; literals in front are harmless"""
+    S = Sym
+    out = []
+    for A in ('a', 'b'):
+        out.append(('do', S('nosuch'), 1))
+        out.append(('do', 1, S('nosuch'), 2))
+        out.append(('do', ('define', A, 1), S('zz'), S(A)))
+        out.append(('do', ('define', A, 1), S(A), 5, S(A)))
+        out.append(('let', [(A, 1)], [('do', S('q'), S(A))]))
+        out.append(('call', ('fn', [A], [('do', S('y'), S(A))]), 1))
+        out.append(('do', ('define', A, 1), ('if', 1, ('do', S('w'), 2), 3)))
+        out.append(('do', ('define', A, 1), ('do', 7, "s", S(A), ('set', [(A, 2)]), S(A))))
+    return out
